@@ -186,6 +186,9 @@ func lastJSON(out []byte) []byte {
 	return nil
 }
 
+// softMemGiB is each worker's share of the memory the run may use for exploration state (0: no limit).
+var softMemGiB float64
+
 // tierDeadline is the wall-clock time at which running tasks of the quick tier are cut (zero: none).
 var tierDeadline time.Time
 
@@ -216,6 +219,9 @@ func runTask(bin string, t *task, work string) {
 	}
 	if j.Horizon > 0 {
 		args = append(args, "-horizon", strconv.Itoa(j.Horizon))
+	}
+	if softMemGiB > 0 && j.Mode == "sched" {
+		args = append(args, "-softmem", fmt.Sprint(softMemGiB))
 	}
 	if j.EnvOnly {
 		args = append(args, "-envonly")
@@ -342,6 +348,15 @@ func main() {
 	par := runtime.NumCPU()
 	if par > 16 {
 		par = 16
+	}
+	if prop != "C06" { // C06 measures allocation itself and its workers are short-lived
+		n := par
+		if len(tasks) < n {
+			n = len(tasks)
+		}
+		if n > 0 {
+			softMemGiB = 36.0 / float64(n)
+		}
 	}
 	sem := make(chan struct{}, par)
 	var wg sync.WaitGroup
